@@ -631,6 +631,98 @@ def make_attr(**kw):
     return AttrHarness(**kw)
 
 
+# ---------------------------------------------------------------------------- K5 other placements
+PLACE_LIB = """
+library: plc
+cxx_header: plc.hpp
+options:
+  wrap_python: true
+  wrap_lua: true
+declarations:
+- decl: int libfunc(int n)
+- decl: namespace calc
+  declarations:
+  - decl: int twice(int n)
+  - decl: double half(double x)
+- decl: template<typename T> class Box
+  cxx_template:
+  - instantiation: <int>
+  declarations:
+  - decl: Box()
+  - decl: int *count()
+  - decl: void put(T value)
+"""
+PLACEMENTS = [
+    # (name, container placement, equivalent placement on the contained declarations)
+    ("namespace format CXX_this_call", ("ns", "format", {"CXX_this_call": "calc::impl::"}), ("ns-functions", "format", {"CXX_this_call": "calc::impl::"})),
+    ("namespace format LUA_this_call", ("ns", "format", {"LUA_this_call": "calc::impl::"}), ("ns-functions", "format", {"LUA_this_call": "calc::impl::"})),
+    ("namespace format PY_this_call", ("ns", "format", {"PY_this_call": "calc::impl::"}), ("ns-functions", "format", {"PY_this_call": "calc::impl::"})),
+    ("instantiation options F_force_wrapper", ("inst", "options", {"F_force_wrapper": True}), ("class", "options", {"F_force_wrapper": True})),
+    ("instantiation options return_scalar_pointer", ("inst", "options", {"return_scalar_pointer": "scalar"}),
+     ("class", "options", {"return_scalar_pointer": "scalar"})),
+    ("instantiation options debug", ("inst", "options", {"debug": True}), ("class-functions", "options", {"debug": True})),
+    ("class options F_force_wrapper", ("class", "options", {"F_force_wrapper": True}), ("class-functions", "options", {"F_force_wrapper": True})),
+]
+
+
+def place(d, where, field, values):
+    ns = d["declarations"][1]
+    cls = d["declarations"][2]
+    targets = {"ns": [ns], "ns-functions": ns["declarations"], "class": [cls], "class-functions": cls["declarations"],
+               "inst": [cls["cxx_template"][0]]}[where]
+    for t in targets:
+        t.setdefault(field, {}).update(values)
+
+
+class PlacementHarness(object):
+    """A format field / option placed on a container and, equivalently, on what it contains (K2 covers
+    library / namespace / class / block / function for three options and a user field; this kernel covers the
+    placements K2 does not have: the this_call format fields of a namespace, and the options of a class
+    template instantiation entry)."""
+
+    def __init__(self, twin=False):
+        self.twin = twin
+
+    def run(self, e):
+        v = z3.Int("placement")
+        e.assume(z3.And(v >= 0, v < len(PLACEMENTS)))
+        self.k = e.choose(v)
+        name, a, b = PLACEMENTS[self.k]
+        dA, dB = pipeline.load_yaml(PLACE_LIB), pipeline.load_yaml(PLACE_LIB)
+        place(dA, *a)
+        place(dB, *b)
+        return pipeline.run(dA, deep=False), pipeline.run(dB, deep=False)
+
+    def witness(self, what):
+        return {"kernel": "placement", "placement": PLACEMENTS[self.k][0], "index": self.k, "what": what}
+
+    def judge(self, e, kind, value):
+        cls = "placement"
+        if kind == "exc":
+            return {"cls": cls, "violation": self.witness("exception %s: %s" % (type(value).__name__, str(value)[:200])), "vkey": "placement:exc"}
+        what = compare_runs(value[0], value[1])
+        if self.twin and not what:
+            what = "reachability twin"
+        if what:
+            return {"cls": cls, "violation": self.witness(what), "vkey": "placement:%d" % self.k}
+        return {"cls": cls, "sample": self.witness(None)}
+
+
+def confirm_placement(w):
+    name, a, b = PLACEMENTS[w["index"]]
+    dA, dB = pipeline.load_yaml(PLACE_LIB), pipeline.load_yaml(PLACE_LIB)
+    place(dA, *a)
+    place(dB, *b)
+    try:
+        return compare_runs(pipeline.run(dA, deep=False), pipeline.run(dB, deep=False))
+    except Exception as ex:
+        return "exception %s: %s" % (type(ex).__name__, ex)
+
+
+def make_placement(**kw):
+    return PlacementHarness(**kw)
+
+
 def make_cmd(**kw):
     return CmdHarness(**kw)
 
@@ -645,6 +737,8 @@ def confirm(w):
         return confirm_attr(w)
     if k == "cmdline":
         return confirm_cmd(w)
+    if k == "placement":
+        return confirm_placement(w)
     if k == "create_wrapper":
         return check_create_wrapper()
     return None
@@ -675,6 +769,8 @@ def main():
         labels.append("inline vs attrs/fattrs: %s" % ATTR_SHAPES[i]["name"])
     specs.append(("harness.C14", "make_cmd", {}))
     labels.append("--option/--language vs YAML")
+    specs.append(("harness.C14", "make_placement", {}))
+    labels.append("namespace this_call fields / class template instantiation options")
     accs = driver.explore_many(specs, split_depth=4, time_budget_s=600 if tier == "quick" else 3000, max_decisions=20000)
     total = driver.Acc()
     runs = []
